@@ -53,6 +53,10 @@ type Case struct {
 	// lines phase only: the source as physical lines, and the bait planted in its comments (see lines.go)
 	Src   *Source `json:"source,omitempty"`
 	Baits []Item  `json:"baits,omitempty"`
+	// sizes phase only: the set is regenerated from this description (see sizes.go)
+	Sz *SizeSpec `json:"sizes,omitempty"`
+	// rules phase only: the edge rule loaded together with Items (see rules.go)
+	Rl *RuleSpec `json:"edge_rule,omitempty"`
 
 	ready bool
 }
@@ -386,6 +390,7 @@ type caseResult struct {
 	nFalse     int
 	entries    []string // of the first append load, for samples
 	linesNT    bool     // lines phase: the case is non-trivial (see runLines)
+	extNT      bool     // sizes / rules phase: the case is non-trivial (see runSizes, runRules)
 }
 
 func (e *env) runCase(c *Case) (res caseResult) {
@@ -412,6 +417,16 @@ func (e *env) runCase(c *Case) (res caseResult) {
 	if c.Src != nil {
 		curLayer = "lines"
 		e.runLines(c, &res)
+		return
+	}
+	if c.Sz != nil {
+		curLayer = "sizes"
+		e.runSizes(c, &res)
+		return
+	}
+	if c.Rl != nil {
+		curLayer = "rules"
+		e.runRules(c, &res)
 		return
 	}
 	rules := make([]rule, len(c.Items))
